@@ -24,15 +24,23 @@ import (
 	"net/http/httptest"
 	"os"
 	"reflect"
+	"regexp"
 	"runtime"
 	"sort"
+	"strconv"
 	"strings"
 	"sync"
 	"sync/atomic"
 	"time"
 
+	sdkmetric "go.opentelemetry.io/otel/sdk/metric"
+	sdktrace "go.opentelemetry.io/otel/sdk/trace"
+
 	"rivaas.dev/app"
+	riverrors "rivaas.dev/errors"
+	"rivaas.dev/metrics"
 	"rivaas.dev/router"
+	"rivaas.dev/tracing"
 	rroute "rivaas.dev/router/route"
 	"rivaas.dev/router/version"
 	"rivaas.dev/validation"
@@ -47,6 +55,7 @@ type Cfg struct {
 	Versioning bool
 	NoRoute    bool
 	App        bool // serve through app.App (app-level pool on top of the router pool)
+	Obs        bool `json:",omitempty"` // app with observability (metrics + tracing recorder: wraps the response writer per request)
 }
 
 type routeDef struct {
@@ -224,6 +233,14 @@ type Req struct {
 	Panic  bool `json:",omitempty"` // the handler panics (no recovery middleware) after its dirtying program
 	// app: a second Bind with validation — "P": WithPartial + WithPresence(only plan), "T": WithPartial (presence from the own body)
 	Bind2 string `json:",omitempty"`
+	// a second Accept field line (list-valued header spread over two lines)
+	Accept2 string `json:",omitempty"`
+	// app: the handler answers with c.Fail (error format negotiated over the configured formatters)
+	Fail bool `json:",omitempty"`
+	// app: the handler calls ResetBinding() after its binds and does not bind again
+	ResetB bool `json:",omitempty"`
+	// the nested request is served with this handler's c.Response as its ResponseWriter (an app mounted inside a handler)
+	NestShare bool `json:",omitempty"`
 }
 
 type Case struct {
@@ -346,7 +363,20 @@ func handle(c *router.Context, hid int, presence int, bind func(q Req) string) {
 					}
 				}
 			}()
-			curHandler.ServeHTTP(httptest.NewRecorder(), newRequest(curCase.H[q.Nested], q.Nested))
+			if q.NestShare && c.Response != nil {
+				curHandler.ServeHTTP(c.Response, newRequest(curCase.H[q.Nested], q.Nested))
+				return
+			}
+			rec := httptest.NewRecorder()
+			defer func() {
+				// what the nested request's handlers wrote must have arrived in ITS recorder, and nothing else
+				mu.Lock()
+				if in := views[q.Nested]; !markersOK(rec.Body.String(), q.Nested, in != nil) && in != nil {
+					in.unstable = true
+				}
+				mu.Unlock()
+			}()
+			curHandler.ServeHTTP(rec, newRequest(curCase.H[q.Nested], q.Nested))
 		}()
 		after := snapshot(c, hid, presence)
 		mu.Lock()
@@ -369,6 +399,7 @@ func handle(c *router.Context, hid int, presence int, bind func(q Req) string) {
 	dirty(c, q.Dirty)
 	if c.Response != nil {
 		c.Response.WriteHeader(200)
+		_, _ = fmt.Fprintf(c.Response, "<r%d>", idx) // the response is part of the request's own state: checked at its recorder
 	}
 	if q.Panic {
 		panic(probePanic{})
@@ -376,6 +407,56 @@ func handle(c *router.Context, hid int, presence int, bind func(q Req) string) {
 }
 
 var errProbe = errors.New("probe error")
+
+var markerRe = regexp.MustCompile(`<r(\d+)>`)
+
+// markersOK: the body holds the marker of request idx (a handler ran for it) or no marker at all (none ran), markers
+// of requests nested into it through a shared writer, and no other request's marker.
+func markersOK(body string, idx int, ran bool) bool {
+	allowed := map[int]bool{idx: true}
+	for j := idx; curCase != nil && j < len(curCase.H) && curCase.H[j].Nested > 0 && curCase.H[j].NestShare; j = curCase.H[j].Nested {
+		allowed[curCase.H[j].Nested] = true
+	}
+	own := 0
+	for _, m := range markerRe.FindAllStringSubmatch(body, -1) {
+		k, _ := strconv.Atoi(m[1])
+		if !allowed[k] {
+			return false
+		}
+		if k == idx {
+			own++
+		}
+	}
+	if ran {
+		return own == 1
+	}
+	return own == 0
+}
+
+// pathProbe: every field is bound from a path parameter; names that are not parameters of the matched route stay empty
+type pathProbe struct {
+	ID       string `path:"id"`
+	X        string `path:"x"`
+	N        string `path:"n"`
+	Filepath string `path:"filepath"`
+	A        string `path:"a"`
+	Stale    string `path:"stale"`
+	ZZ       string `path:"zz"`
+}
+
+var pathProbeNames = []string{"id", "x", "n", "filepath", "a", "stale", "zz"}
+
+func (p pathProbe) String() string {
+	return fmt.Sprintf("id=%s,x=%s,n=%s,filepath=%s,a=%s,stale=%s,zz=%s", p.ID, p.X, p.N, p.Filepath, p.A, p.Stale, p.ZZ)
+}
+
+func errorFormatters() app.Option {
+	return app.WithErrorFormatters(map[string]riverrors.Formatter{
+		"application/problem+json": &riverrors.RFC9457{},
+		"application/vnd.api+json": &riverrors.JSONAPI{},
+		"application/json":         &riverrors.Simple{},
+	})
+}
 
 func dirty(c *router.Context, ds []Dirty) {
 	for _, d := range ds {
@@ -443,7 +524,22 @@ func doBind(c *app.Context, q Req) string {
 
 func appHandler(hid int) app.HandlerFunc {
 	return func(c *app.Context) {
-		handle(c.Context, hid, len(c.Presence()), func(q Req) string { return doBind(c, q) })
+		handle(c.Context, hid, len(c.Presence()), func(q Req) string {
+			out := doBind(c, q)
+			// path binding: only the parameters of this request's route may show up
+			var pp pathProbe
+			_ = c.BindOnly(&pp)
+			out += "|path:" + pp.String()
+			if q.ResetB {
+				c.ResetBinding()
+			}
+			if q.Fail {
+				c.Fail(errProbe)
+				ct, _, _ := strings.Cut(c.Response.Header().Get("Content-Type"), ";")
+				out += "|fail:" + ct
+			}
+			return out
+		})
 	}
 }
 
@@ -457,21 +553,44 @@ func appBefore(c *app.Context) {
 }
 
 // expectedBind: what the handler binds for this request on a brand-new app (nothing pooled, no other request).
-func expectedBind(q Req) string {
-	if q.Body == "" {
-		return ""
+func expectedBind(q Req, params map[string]string) string {
+	var pp pathProbe
+	pp.ID, pp.X, pp.N, pp.Filepath, pp.A, pp.Stale, pp.ZZ = params["id"], params["x"], params["n"], params["filepath"], params["a"], params["stale"], params["zz"]
+	path := "|path:" + pp.String()
+	if q.Body == "" && !q.Fail {
+		return path
 	}
-	a, err := app.New(app.WithServiceName("c03ref"), app.WithServiceVersion("v0.0.1"), app.WithoutDefaultMiddleware())
+	a, err := app.New(app.WithServiceName("c03ref"), app.WithServiceVersion("v0.0.1"), app.WithoutDefaultMiddleware(), errorFormatters(),
+		app.WithDefaultErrorFormat("application/problem+json"))
 	if err != nil {
 		fmt.Fprintln(os.Stderr, "app.New:", err)
 		os.Exit(1)
 	}
-	res := ""
-	a.Router().GET("/ref", a.WrapHandler(func(c *app.Context) { res = doBind(c, q) }))
-	req := httptest.NewRequest("GET", "http://h.test/ref", bytes.NewReader([]byte(q.Body)))
-	req.Header.Set("Content-Type", "application/json")
+	res, fail := "", ""
+	a.Router().GET("/ref", a.WrapHandler(func(c *app.Context) {
+		res = doBind(c, q)
+		if q.Fail {
+			c.Fail(errProbe)
+			ct, _, _ := strings.Cut(c.Response.Header().Get("Content-Type"), ";")
+			fail = "|fail:" + ct
+		}
+	}))
+	var body io.Reader
+	if q.Body != "" {
+		body = bytes.NewReader([]byte(q.Body))
+	}
+	req := httptest.NewRequest("GET", "http://h.test/ref", body)
+	if q.Body != "" {
+		req.Header.Set("Content-Type", "application/json")
+	}
+	if q.Accept != "" {
+		req.Header.Set("Accept", q.Accept)
+	}
+	if q.Accept2 != "" {
+		req.Header.Add("Accept", q.Accept2)
+	}
 	a.Router().ServeHTTP(httptest.NewRecorder(), req)
-	return res
+	return res + path + fail
 }
 
 func routerOpts(c Cfg) []router.Option {
@@ -492,7 +611,15 @@ func build(c Cfg) http.Handler {
 	var a *app.App
 	if c.App {
 		var err error
-		a, err = app.New(app.WithServiceName("c03"), app.WithServiceVersion("v0.0.1"), app.WithoutDefaultMiddleware(), app.WithRouter(routerOpts(c)...))
+		opts := []app.Option{app.WithServiceName("c03"), app.WithServiceVersion("v0.0.1"), app.WithoutDefaultMiddleware(), app.WithRouter(routerOpts(c)...),
+			errorFormatters(), app.WithDefaultErrorFormat("application/problem+json")}
+		if c.Obs {
+			opts = append(opts, app.WithObservability(
+				app.WithMetrics(metrics.WithMeterProvider(sdkmetric.NewMeterProvider(sdkmetric.WithReader(sdkmetric.NewManualReader()))), metrics.WithServerDisabled()),
+				app.WithTracing(tracing.WithTracerProvider(sdktrace.NewTracerProvider())),
+			))
+		}
+		a, err = app.New(opts...)
 		if err != nil {
 			fmt.Fprintln(os.Stderr, "app.New:", err)
 			os.Exit(1)
@@ -654,6 +781,9 @@ func newRequest(q Req, idx int) *http.Request {
 		req.Header.Set("Accept-Charset", "utf-8;q=0.9, iso-8859-1")
 		req.Header.Set("Accept-Encoding", "br;q=0.5, gzip")
 		req.Header.Set("Accept-Language", "de, en;q=0.7")
+	}
+	if q.Accept2 != "" {
+		req.Header.Add("Accept", q.Accept2)
 	}
 	if q.Body != "" {
 		req.Header.Set("Content-Type", "application/json")
@@ -848,7 +978,15 @@ func runHistory(id string, cs Case) string {
 				pmu.Unlock()
 			}
 		}()
-		h.ServeHTTP(httptest.NewRecorder(), newRequest(cs.H[i], i))
+		rec := httptest.NewRecorder()
+		defer func() {
+			mu.Lock()
+			if v := views[i]; !markersOK(rec.Body.String(), i, v != nil) && v != nil {
+				v.unstable = true // what this request's handler wrote did not (only) arrive at this request's client
+			}
+			mu.Unlock()
+		}()
+		h.ServeHTTP(rec, newRequest(cs.H[i], i))
 		mu.Lock()
 		v := views[i]
 		mu.Unlock()
@@ -961,7 +1099,18 @@ func runHistory(id string, cs Case) string {
 		ref := router.NewContext(httptest.NewRecorder(), newRequest(o.q, o.idx))
 		refAcc := acceptResults(ref)
 		if cs.C.App {
-			refAcc += "|bind:" + expectedBind(o.q)
+			params := map[string]string{}
+			for _, st := range o.steps {
+				if st.kind == "W" {
+					params[st.a] = st.b
+				}
+			}
+			refAcc += "|bind:" + expectedBind(o.q, params)
+		}
+		if os.Getenv("VERIF_DEBUG") != "" && refAcc != o.v.acc {
+			fmt.Fprintf(os.Stderr, "DEBUG %s req %d (%s %s fail=%v reset=%v nested=%d share=%v inner=%v):\n  impl %q\n  ref  %q\n  unstable=%v shared=%v\n", id, o.idx, o.q.Method, o.q.Path, o.q.Fail, o.q.ResetB, o.q.Nested, o.q.NestShare, o.q.Inner, o.v.acc, refAcc, o.v.unstable, o.v.shared)
+		} else if os.Getenv("VERIF_DEBUG") != "" && (o.v.unstable || o.v.shared) {
+			fmt.Fprintf(os.Stderr, "DEBUG %s req %d unstable=%v shared=%v nested=%d share=%v inner=%v panic=%v\n", id, o.idx, o.v.unstable, o.v.shared, o.q.Nested, o.q.NestShare, o.q.Inner, o.q.Panic)
 		}
 		l.Str(refAcc)
 		l.Str(o.q.Accept)
@@ -1063,8 +1212,64 @@ func genReq(r *hx.Rand, c Cfg) Req {
 			`{"email":"not-an-email","plan":"platinum"}`, `{"email":"bob@example.com"}`, `{"plan":"pro","email":"x"}`})
 		q.Bind2 = hx.Pick(r, []string{"", "", "P", "T", "T"})
 	}
+	if c.App {
+		// error-format negotiation: Accept lists over the configured formatters, some spread over two field lines
+		if r.Chance(1, 3) {
+			q.Accept = hx.Pick(r, errAccepts)
+			if r.Chance(1, 2) {
+				q.Accept2 = hx.Pick(r, errAccepts)
+			}
+		}
+		// selectFormatter offers the media types in map order: with a tie (or without an Accept header) the format is
+		// picked at random on the unchanged tree — only tie-free headers make the format a function of the request
+		q.Fail = r.Chance(1, 2) && tieFree(q.Accept, q.Accept2)
+		q.ResetB = r.Chance(1, 4)
+		if q.Fail {
+			q.Dirty = append(q.Dirty, Dirty{Kind: "A"}) // Fail aborts the chain
+		}
+	}
 	return q
 }
+
+// tieFree: only exact media types of the three formatters (no wildcards), and the best quality is reached by one of
+// them alone (or by none)
+func tieFree(a1, a2 string) bool {
+	h := a1
+	if a2 != "" {
+		h += ", " + a2
+	}
+	if h == "" || strings.Contains(h, "*") {
+		return false
+	}
+	q := map[string]float64{}
+	for _, part := range strings.Split(h, ",") {
+		f := strings.Split(strings.TrimSpace(part), ";")
+		v := 1.0
+		for _, p := range f[1:] {
+			if strings.HasPrefix(strings.TrimSpace(p), "q=") {
+				v, _ = strconv.ParseFloat(strings.TrimSpace(p)[2:], 64)
+			}
+		}
+		if old, ok := q[f[0]]; !ok || v > old {
+			q[f[0]] = v
+		}
+		if ok := q[f[0]]; ok != v {
+			return false // the same type twice with different qualities: which one counts is not this property's business
+		}
+	}
+	best, n := 0.0, 0
+	for _, t := range []string{"application/problem+json", "application/vnd.api+json", "application/json"} {
+		if q[t] > best {
+			best, n = q[t], 1
+		} else if q[t] == best && best > 0 {
+			n++
+		}
+	}
+	return n <= 1
+}
+
+var errAccepts = []string{"application/problem+json;q=0.1", "application/vnd.api+json", "application/json;q=0.5", "application/problem+json",
+	"application/vnd.api+json;q=0.2, application/json", "text/html"}
 
 // nontrivial: the previous request on the same pooled object dirtied a field the current serve path does not assign
 func nontrivial(cs Case, objOf map[int]int) bool {
@@ -1139,6 +1344,30 @@ func witnesses() []Case {
 			{Method: "GET", Path: "/f/7/rev/3/blame", Class: "catchall-vs-param"},
 			{Method: "GET", Path: "/s/a", Class: "static"},
 		}},
+		// app: path parameters bound into a struct, ResetBinding without a second bind, then a route without that parameter
+		{C: Cfg{App: true}, H: []Req{
+			{Method: "GET", Path: "/d/secret-42", ResetB: true, Class: "param"},
+			{Method: "GET", Path: "/c/12", Class: "param"},
+			{Method: "GET", Path: "/s/a", ResetB: true, Class: "static"},
+			{Method: "GET", Path: "/w/a/b", Class: "wild"},
+		}},
+		// app: error format negotiated per request; a later request whose Accept header is spread over two field lines
+		{C: Cfg{App: true}, H: []Req{
+			{Method: "GET", Path: "/s/a", Accept: "application/problem+json;q=0.1", Fail: true, Dirty: []Dirty{{Kind: "A"}}, Class: "static"},
+			{Method: "GET", Path: "/s/a", Accept: "application/problem+json;q=0.1", Accept2: "application/vnd.api+json", Fail: true, Dirty: []Dirty{{Kind: "A"}}, Class: "static"},
+			{Method: "GET", Path: "/d/7", Accept: "application/json;q=0.5", Accept2: "application/problem+json;q=0.1", Fail: true, Dirty: []Dirty{{Kind: "A"}}, Class: "param"},
+		}},
+		// app with observability: a request served from inside a handler through that handler's (already wrapped) writer,
+		// then overlapping requests with writers of their own: every response must arrive at its own client
+		{C: Cfg{App: true, Obs: true}, H: []Req{
+			{Method: "GET", Path: "/s/a", Nested: 1, NestShare: true, Class: "static"},
+			{Method: "GET", Path: "/d/1", Inner: true, Class: "param"},
+			{Method: "GET", Path: "/d/2", Nested: 3, Class: "param"},
+			{Method: "GET", Path: "/d/3", Inner: true, Class: "param"},
+			{Method: "GET", Path: "/s/a", Nested: 5, Class: "static"},
+			{Method: "GET", Path: "/d/4", Inner: true, Class: "param"},
+			{Method: "GET", Path: "/s/a", Class: "static"},
+		}},
 		{C: Cfg{App: true, Versioning: true}, H: []Req{
 			{Method: "GET", Path: "/d/7", Body: `{"a":1,"b":"x"}`, Dirty: d, Class: "param"},
 			{Method: "GET", Path: "/s/a", Class: "static"},
@@ -1196,8 +1425,20 @@ func main() {
 				if cs.H[i].Panic {
 					st.Count("handler-panics-out-of-ServeHTTP")
 				}
+				if cs.H[i].Fail {
+					st.Count("app:Fail(negotiated error format)")
+				}
+				if cs.H[i].ResetB {
+					st.Count("app:ResetBinding")
+				}
+				if cs.H[i].NestShare {
+					st.Count("nested-through-the-outer-writer")
+				}
+				if cs.H[i].Accept2 != "" {
+					st.Count("accept-on-two-field-lines")
+				}
 			}
-			st.Count(fmt.Sprintf("cfg:compiled=%v,versioning=%v,noRoute=%v,app=%v", cs.C.Compiled, cs.C.Versioning, cs.C.NoRoute, cs.C.App))
+			st.Count(fmt.Sprintf("cfg:compiled=%v,versioning=%v,noRoute=%v,app=%v,obs=%v", cs.C.Compiled, cs.C.Versioning, cs.C.NoRoute, cs.C.App, cs.C.Obs))
 			st.Counters["requests"] += len(cs.H)
 			st.Counters["handler-got-a-reused-object"] += reused
 			if cs.Conc > 0 {
@@ -1210,6 +1451,7 @@ func main() {
 		}
 		for i := 0; i < a.N; i++ {
 			c := Cfg{Compiled: r.Chance(1, 2), Versioning: r.Chance(2, 3), NoRoute: r.Chance(1, 2), App: r.Chance(1, 4)}
+			c.Obs = c.App && r.Chance(1, 2)
 			n := r.Range(2, 40)
 			h := make([]Req, n)
 			for j := range h {
@@ -1219,6 +1461,7 @@ func main() {
 			for j := 0; j+1 < n; j++ {
 				if _, _, runs := predictSteps(c, h[j], j); runs && r.Chance(1, 3) {
 					h[j].Nested, h[j+1].Inner = j+1, true
+					h[j].NestShare = r.Chance(1, 3) // the nested request writes through this request's writer
 					j++
 				}
 			}
